@@ -1886,3 +1886,314 @@ func (c *Check) ruleParallelListsAligned(rule string) {
 	}
 	c.Min(rule, "per-tx flag lists in ProcessBlock", n, 2)
 }
+
+// ---------------------------------------------------------------------------------------------
+// C13 / C01: block requests that were admitted go out on the wire, once
+
+// handOvers lists the instructions of fn that hand a getdata message over for sending: TransmitMessage,
+// queueOutgoing, or appending it to the handler's response list. The message value is returned too.
+func handOvers(fn *ssa.Function) (ins []ssa.Instruction, msgs []ssa.Value) {
+	isGetData := func(v ssa.Value) bool {
+		if mi, ok := v.(*ssa.MakeInterface); ok {
+			v = mi.X
+		}
+		p, ok := v.Type().(*types.Pointer)
+		if !ok {
+			return false
+		}
+		nm, ok := p.Elem().(*types.Named)
+		return ok && nm.Obj().Name() == "MsgGetData"
+	}
+	strip := func(v ssa.Value) ssa.Value {
+		if mi, ok := v.(*ssa.MakeInterface); ok {
+			return mi.X
+		}
+		return v
+	}
+	for _, b := range fn.Blocks {
+		for _, in := range b.Instrs {
+			call, ok := in.(*ssa.Call)
+			if !ok {
+				continue
+			}
+			if call.Call.IsInvoke() && call.Call.Method.Name() == "TransmitMessage" && len(call.Call.Args) == 1 && isGetData(call.Call.Args[0]) {
+				ins, msgs = append(ins, call), append(msgs, strip(call.Call.Args[0]))
+				continue
+			}
+			if strings.HasSuffix(calleeShort(&call.Call), ").queueOutgoing") && len(call.Call.Args) == 2 && isGetData(call.Call.Args[1]) {
+				ins, msgs = append(ins, call), append(msgs, strip(call.Call.Args[1]))
+				continue
+			}
+			if builtinCall(call, "append") != nil {
+				for _, v := range appendedValues(call) {
+					if isGetData(v) {
+						ins, msgs = append(ins, call), append(msgs, strip(v))
+					}
+				}
+			}
+		}
+	}
+	return
+}
+
+// ruleFilledRequestsGoOut (C13.R12 / C01.R13): in the functions that turn admitted block requests into getdata messages,
+// every AddInvVect is followed, on every path to a non-error return, by a hand-over of a getdata
+// message (response list, outgoing queue); and after a hand-over inside a loop the message
+// variable carried into the next iteration is a new message (otherwise the same items go out again).
+func (c *Check) ruleFilledRequestsGoOut(rule string, fnKeys ...string) {
+	for _, fk := range fnKeys {
+		fn := c.Fn(rule, fk)
+		if fn == nil {
+			continue
+		}
+		hs, msgs := handOvers(fn)
+		var adds []*ssa.Call
+		for _, s := range sitesIn(fn) {
+			if call := s.Value(); call != nil && calleeObjName(s.CC) == "AddInvVect" {
+				adds = append(adds, call)
+			}
+		}
+		c.Min(rule, "AddInvVect calls in "+fk, len(adds), 1)
+		c.Min(rule, "hand-overs of getdata messages in "+fk, len(hs), 1)
+		for i, a := range adds {
+			// from the AddInvVect no successful return is reachable without a hand-over executed afterwards;
+			// an edge on which the message's list was found empty does not count as a way around
+			cut := map[*ssa.BasicBlock]bool{}
+			for _, hx := range hs {
+				if hx.Block() != a.Block() || instrIndex(hx) > instrIndex(a) {
+					cut[hx.Block()] = true
+				}
+			}
+			nothingLeft := func(iff *ssa.If, br int) bool {
+				r, ok := edgeRel(iff, br)
+				if !ok || r.Op != token.EQL {
+					return false
+				}
+				k, isC := constInt(r.Y)
+				l := lenOf(r.X)
+				return isC && k == 0 && l != nil && mentionsFieldNamed(l, "InvList")
+			}
+			ok := true
+			var w []string
+			if !cut[a.Block()] {
+				for _, ret := range returnsOf(fn) {
+					if isErrorReturnBlock(ret.Block()) {
+						continue
+					}
+					// a return that answers with no response list at all abandons the whole message (the
+					// handler does that for a header it cannot place); what the node then does is the
+					// time-out's business, not this rule's
+					if len(ret.Results) == 2 {
+						if cst, isC := ret.Results[0].(*ssa.Const); isC && cst.IsNil() {
+							continue
+						}
+					}
+					if r, path := reachAvoid2(a.Block(), ret.Block(), nothingLeft, cut); r {
+						ok = false
+						w = pathWitness(fn, path)
+					}
+				}
+			}
+			c.Decide(ok, rule, fmt.Sprintf("%s#filled-getdata-goes-out@%d", fk, i+1), a.Pos(), "must-be-followed-by", w,
+				"a getdata that received an item is handed over for sending on every path to a successful return",
+				"an item is added to a getdata message that is then not handed over for sending on some path: the block is recorded as requested but the request never reaches the peer, and no time-out fires for it until the connection restarts")
+		}
+		// a message is replaced by a new one inside a loop only after it was handed over in that iteration
+		for _, s := range callsTo(fn, "wire.NewMsgGetData") {
+			call := s.Value()
+			if call == nil || loopHeaderOf(call.Block()) == nil {
+				continue
+			}
+			// a replacement: an item can have been added earlier in the same iteration
+			hl := loopHeaderOf(call.Block())
+			replaces := false
+			for _, a := range adds {
+				if a.Block() == call.Block() && instrIndex(a) < instrIndex(call) {
+					replaces = true
+				}
+				if a.Block() != call.Block() && loopBody(hl)[a.Block()] && reachableWithin(a.Block(), call.Block(), hl) {
+					replaces = true
+				}
+			}
+			if !replaces {
+				continue
+			}
+			ok, w := precededInIteration(call, hs)
+			c.Decide(ok, rule, fmt.Sprintf("%s#getdata-replaced-only-after-hand-over", fk), call.Pos(), "must-pass-through", w,
+				"inside the loop a new message is started only after the current one was handed over",
+				"inside the loop the getdata message is replaced by a new one on a path that did not hand the current one over: the batch collected so far is dropped, its blocks are recorded as requested but never asked for")
+		}
+		// fresh message after a hand-over inside a loop
+		for i, hi := range hs {
+			h := loopHeaderOf(hi.Block())
+			if h == nil {
+				continue
+			}
+			body := loopBody(h)
+			msg := msgs[i]
+			bad := false
+			var wit []string
+			for _, in := range h.Instrs {
+				phi, ok := in.(*ssa.Phi)
+				if !ok {
+					break
+				}
+				if !types.Identical(phi.Type(), msg.Type()) {
+					continue
+				}
+				for j, e := range phi.Edges {
+					pr := h.Preds[j]
+					if !body[pr] || !(pr == hi.Block() || reachableWithin(hi.Block(), pr, h)) {
+						continue
+					}
+					for _, src := range valuesAfter(e, hi.Block(), h, body) {
+						if src == msg {
+							bad = true
+							wit = append(wit, fmt.Sprintf("carried to the next iteration through block %d (%s)", pr.Index, c.P.Pos(lastPos(pr))))
+						}
+					}
+				}
+			}
+			// a message created before the loop and never replaced inside it is the same object in every iteration
+			if in, ok := msg.(ssa.Instruction); ok && !body[in.Block()] {
+				if _, isPhi := msg.(*ssa.Phi); !isPhi {
+					bad = true
+					wit = append(wit, "the message handed over is created outside the loop and not replaced after the hand-over")
+				}
+			}
+			c.Decide(!bad, rule, fmt.Sprintf("%s#new-getdata-after-hand-over@%d", fk, i+1), hi.Pos(), "loop-carried value", wit,
+				"after a hand-over the loop continues with a new message",
+				"a getdata message that was handed over for sending is carried into the next iteration: it keeps growing and is handed over again, so the same blocks are requested more than once")
+		}
+	}
+}
+
+// ---------------------------------------------------------------------------------------------
+// C01: time-outs fire
+
+// ruleTimeoutsFire (C01.R14): State.CheckTimeouts is what turns a lost reply into a reconnect (every other C01
+// rule relies on it: "otherwise no time-out can fire"). For each watched request (handshake, header
+// request, each outstanding block request) there is an age test `elapsed > limit` (elapsed from
+// time.Time.Sub / Since, limit a constant) whose true edge reaches only non-nil error returns,
+// the pointer to the request time is loaded only behind its nil test, and the block test applies to
+// requests whose body has not arrived (`block == nil`).
+func (c *Check) ruleTimeoutsFire(rule string) {
+	fn := c.Fn(rule, "state.(*State).CheckTimeouts")
+	if fn == nil {
+		return
+	}
+	n := 0
+	for _, b := range fn.Blocks {
+		iff, ok := lastIf(b)
+		if !ok {
+			continue
+		}
+		bin, ok := iff.Cond.(*ssa.BinOp)
+		if !ok {
+			continue
+		}
+		// elapsed seconds on one side, a constant on the other
+		var elapsed ssa.Value
+		var limitOnRight bool
+		isElapsed := func(v ssa.Value) bool {
+			call, ok := stripConv(v).(*ssa.Call)
+			if !ok || calleeShort(&call.Call) != "(time.Duration).Seconds" {
+				return false
+			}
+			for _, a := range call.Call.Args {
+				if cl, ok := a.(*ssa.Call); ok {
+					switch calleeShort(&cl.Call) {
+					case "(time.Time).Sub", "time.Since":
+						return true
+					}
+				}
+			}
+			return false
+		}
+		if isElapsed(bin.X) {
+			elapsed, limitOnRight = bin.X, true
+		} else if isElapsed(bin.Y) {
+			elapsed, limitOnRight = bin.Y, false
+		}
+		if elapsed == nil {
+			continue
+		}
+		n++
+		key := fmt.Sprintf("state.(*State).CheckTimeouts#age-test@%d", n)
+		other := bin.Y
+		if !limitOnRight {
+			other = bin.X
+		}
+		_, isConst := other.(*ssa.Const)
+		op := bin.Op
+		if !limitOnRight {
+			op = swapOp(op)
+		}
+		c.Decide(isConst && (op == token.GTR || op == token.GEQ), rule, key+"-is-elapsed-greater-than-limit", bin.Pos(), "value shape", nil,
+			"the test is `elapsed > limit` with a constant limit", "the age test of a watched request is not `elapsed > constant limit`: the time-out fires at once for fresh requests (endless reconnects) or never")
+		// the true edge leads only to non-nil error returns
+		succ := b.Succs[0]
+		okRet := true
+		var wit []string
+		explore([]walkNode{mkNode(b, succ)}, func(nd walkNode) bool {
+			if isExitBlock(nd.b) {
+				if !isErrorReturnBlock(nd.b) {
+					okRet = false
+					wit = []string{"reaches a nil-error return at " + c.P.Pos(lastPos(nd.b))}
+				}
+				return false
+			}
+			if nd.b == b || (loopHeaderOf(nd.b) != nil && loopHeaderOf(nd.b) == nd.b) {
+				okRet = false
+				wit = []string{"carries on at " + c.P.Pos(lastPos(nd.b))}
+				return false
+			}
+			return okRet
+		})
+		c.Decide(okRet, rule, key+"-expired-returns-an-error", bin.Pos(), "edge-threaded reachability", wit,
+			"an expired request makes CheckTimeouts return a non-nil error", "an expired request does not make CheckTimeouts return an error: the lost reply is never noticed and the node waits forever")
+	}
+	c.Min(rule, "age tests in State.CheckTimeouts", n, 3)
+	// pointer loads behind their nil test
+	for _, fname := range []string{"connectedTime", "headersRequested"} {
+		f := c.P.Field("state", "State", fname)
+		if f == nil {
+			continue
+		}
+		for _, b := range fn.Blocks {
+			for _, in := range b.Instrs {
+				u, ok := in.(*ssa.UnOp)
+				if !ok || u.Op != token.MUL {
+					continue
+				}
+				inner, ok := u.X.(*ssa.UnOp)
+				if !ok || inner.Op != token.MUL || fieldOfAddr(inner.X) != f {
+					continue
+				}
+				okNil, w := mustPass(u, nilEdge(func(v ssa.Value) bool { return loadOfField(v, f) != nil }, false))
+				c.Decide(okNil, rule, "state.(*State).CheckTimeouts#"+fname+"-loaded-behind-nil-test", u.Pos(), "edge-cutset", w,
+					"the request time is loaded only where it was found non-nil", "the request time pointer is dereferenced without its nil test: CheckTimeouts panics whenever no such request is outstanding, which kills the monitor goroutine's process")
+			}
+		}
+	}
+	// the block age test applies to requests without a body
+	fBlock := c.P.Field("state", "requestedBlock", "block")
+	if fBlock != nil {
+		for _, h := range loopHeadersOf(fn) {
+			body := loopBody(h)
+			for b := range body {
+				iff, ok := lastIf(b)
+				if !ok {
+					continue
+				}
+				if bin, ok := iff.Cond.(*ssa.BinOp); ok && bin.Op == token.GTR || ok && bin.Op == token.GEQ {
+					if _, isF := bin.X.Type().Underlying().(*types.Basic); isF && strings.Contains(bin.X.Type().String(), "float") {
+						okB, w := mustPass(iff, nilEdge(func(v ssa.Value) bool { return loadOfField(v, fBlock) != nil }, true))
+						c.Decide(okB, rule, "state.(*State).CheckTimeouts#block-age-tested-for-missing-bodies", bin.Pos(), "edge-cutset", w,
+							"the block request age is examined for requests whose body has not arrived", "the block request time-out is evaluated for requests whose body already arrived (or not for the missing ones): received blocks waiting to be processed trigger reconnects, lost ones never do")
+					}
+				}
+			}
+		}
+	}
+}
